@@ -137,7 +137,7 @@ func Versions(name string, level int) G {
 				Seq(Lit("v0.0.0-", "v1.0.0-", "v2.0.0-"), ts, Lit("-"), rev),
 				Seq(Lit("v1.0.0-", "v1.2.3-"), Lit("rc", "pre", "alpha", "0", "rc1"), Lit(".0."), ts, Lit("-"), rev),
 				Seq(Lit("v1.0.1-0.", "v1.2.4-0.", "v1.0.0-0."), ts, Lit("-"), rev),
-				Lit("v1.0.0-pseudo", "v1.0.1-pseudo", "v1.0.0-20200101000000-abcdef12345", "v1.0.0-99999999999999-abcdef123456", "1.0.0-20200101000000-abcdef123456", "v1.0.0+incompatible", "v2.0.0+incompatible", "v1.0.0-rc.0.20200101000000-abcdef123456", "v1.0.0-rc.0", "v1.0.0-rc.0.2"),
+				Lit("v1.2.3-20200101000000-abcdef123456", "v1.1.0-20200101000000-abcdef123456", "v1.0.1-20200101000000-abcdef123456", "v1.0.0-pseudo", "v1.0.1-pseudo", "v1.0.0-20200101000000-abcdef12345", "v1.0.0-99999999999999-abcdef123456", "1.0.0-20200101000000-abcdef123456", "v1.0.0+incompatible", "v2.0.0+incompatible", "v1.0.0-rc.0.20200101000000-abcdef123456", "v1.0.0-rc.0", "v1.0.0-rc.0.2"),
 			)
 		}
 		g = Alt(g, AllStrings(Chars("01a.-+v"), pick(level, 5, 6)))
